@@ -2,6 +2,7 @@ import Nstd.Life.LemmasStableOps
 import Nstd.Life.LemmasOps
 import Nstd.Life.LemmasBlk
 import Nstd.Life.LemmasAssign
+import Nstd.Life.LemmasStableSharp
 /-
   Property theorems for C05: elements of List, Map, MultiMap, HashMap, HashSet, PoolList and PoolMap
   never move while they live; swap hands the elements over without relocating them; the pool
@@ -15,13 +16,58 @@ import Nstd.Life.LemmasAssign
 -/
 namespace Nstd.Life
 
-/-- C05 `stable`.  For EVERY history `ops`, every further operation `op` (insertions, removals of other
+/-- C05 `stable_sharp` (headline).  For EVERY table of block sizes, EVERY history `ops`, every further operation `op` and
+    every element `it` of any node or pool container `c`, exactly one of two things happens, decided by what the operation
+    is meant to do (`Op.removes`: some executed micro step of the operation is a `remove`/`removeKey`/`removeVal`/`clear`/
+    destructor designating this very element, evaluated in the intermediate states):
+    * the operation does NOT remove the element, and the element is `Kept`: still an item, in the same slot, of a container
+      of its kind (c itself; the other variable after a swap), no object was constructed or destroyed in its slot, its key
+      is unchanged;
+    * the operation removes the element, and every member object of it was destroyed.
+    So an operation never destroys an element it is not meant to remove, and never relocates one
+    (relocation by copy-and-destroy would be "not removed, yet not Kept"). -/
+theorem stable_sharp (p : Per) (ops : List Op) (op : Op) :
+    ∃ evs, (step (run (init p) ops) op).log = (run (init p) ops).log ++ evs ∧
+      ∀ c it, it ∈ ((run (init p) ops).nodes c).items →
+        (¬ Op.removes (run (init p) ops) op c it ∧ ∃ c', Kept (run (init p) ops) (step (run (init p) ops) op) evs it c c') ∨
+        (Op.removes (run (init p) ops) op c it ∧ Destroyed evs it c) :=
+  step_stable_sharp p ops op
+
+/-- the same for a single micro step (the inner functions `insert(it, v)`, `remove(it)`, `remove(key)`, `clear`, `swap` ...),
+    with the container named exactly (`m.moves c`) -/
+theorem stable_step (p : Per) (ops : List Op) (m : Micro) (st' : State) (he : exec (run (init p) ops) m = some st') :
+    ∃ evs, st'.log = (run (init p) ops).log ++ evs ∧
+      ∀ c it, it ∈ ((run (init p) ops).nodes c).items →
+        (¬ m.removes (run (init p) ops) c it ∧ Kept (run (init p) ops) st' evs it c (m.moves c)) ∨
+        (m.removes (run (init p) ops) c it ∧ Destroyed evs it c) :=
+  Stable.exec_stable (reach_ok p ops).1 m he
+
+/-- what `Op.removes` means for the remove-by-iterator operations: exactly the designated element -/
+theorem removes_list_remove (st : State) (v i : Nat) (c : Var) (it : Item) :
+    Op.removes st (.lRemove v i) c it ↔ (v ≤ 1 ∧ i < len st ⟨.L, v⟩) ∧ c = ⟨.L, v⟩ ∧ (st.nodes ⟨.L, v⟩).items[i]? = some it :=
+  removes_lRemove st v i c it
+
+/-- and for every insertion operation (insert / append / prepend / insert-or-assign, from a value, from a reference to an
+    own element, from another container or from the container itself): nothing is removed, in any state -/
+theorem insertions_remove_nothing (st : State) (op : Op) (hp : op.isInsertion = true) (c : Var) (it : Item) :
+    ¬ Op.removes st op c it :=
+  insertion_removes_nothing st op hp c it
+
+/-- C05 `keyless_payload_kept`: an element of List / PoolList that a step does not remove keeps its payload, unless the
+    step is the overwrite `*it = v` (`assignVal`) on that container. -/
+theorem keyless_payload_kept (p : Per) (ops : List Op) (m : Micro) (st' : State) (he : exec (run (init p) ops) m = some st')
+    (c : Var) (it : Item) (hi : it ∈ ((run (init p) ops).nodes c).items) (hr : ¬ m.removes (run (init p) ops) c it)
+    (hk : c.k.hasKey = false) :
+    st'.mem (it.loc 1) = (run (init p) ops).mem (it.loc 1) ∨ ∃ j src, m = .assignVal c j src :=
+  exec_keeps_value (reach_ok p ops).1 m he c it hi hr hk
+
+/-- C05 `stable` (weak form, kept as a corollary: `Kept ∨ Destroyed` without saying which; see `stable_sharp`).  For EVERY history `ops`, every further operation `op` (insertions, removals of other
     elements, rebalancing inserts into maps, copies from or into other containers, self-referential
     arguments, swap ...) and every element `it` of any node or pool container `c`: after the operation
     either the element is still an item, in the same slot, of a container of the same kind (c itself; the
     other variable after a swap), no object was constructed or destroyed in its slot during the operation and
     its key is unchanged - or every member object of the element was destroyed by the operation
-    (it was removed).  There is no third possibility: an element is never relocated. -/
+    (it was removed).  WHICH of the two holds for which element is `stable_sharp`. -/
 theorem stable (p : Per) (ops : List Op) (op : Op) :
     ∃ evs, (step (run (init p) ops) op).log = (run (init p) ops).log ++ evs ∧
       ∀ c it, it ∈ ((run (init p) ops).nodes c).items →
